@@ -55,11 +55,11 @@ def toYang (j : Json) : R Json := do
 def toLegacy (j : Json) : R Json := do
   return outcome (yangToLegacy (← getReprs j) (← getJ (← fld j "doc")))
 
-def toYangFixed (j : Json) : R Json := do
-  return outcome (legacyToYangFixed (← getReprs j) (← getJ (← fld j "doc")))
+def toYangOld (j : Json) : R Json := do
+  return outcome (legacyToYangOld (← getReprs j) (← getJ (← fld j "doc")))
 
-def toLegacyFixed (j : Json) : R Json := do
-  return outcome (yangToLegacyFixed (← getReprs j) (← getJ (← fld j "doc")))
+def toLegacyOld (j : Json) : R Json := do
+  return outcome (yangToLegacyOld (← getReprs j) (← getJ (← fld j "doc")))
 
 def precisionH (_ : Json) : R Json :=
   return jList (fun kv => Json.arr #[jStr kv.1, jInt kv.2]) precisionDict
@@ -97,7 +97,7 @@ def modesH (j : Json) : R Json := do
   | .error e => return jObj [("error", jStr e)]
 
 def handlers : List (String × Handler) :=
-  [("c18.to_yang", toYang), ("c18.to_legacy", toLegacy), ("c18.to_legacy_fixed", toLegacyFixed), ("c18.to_yang_fixed", toYangFixed),
+  [("c18.to_yang", toYang), ("c18.to_legacy", toLegacy), ("c18.to_legacy_old", toLegacyOld), ("c18.to_yang_old", toYangOld),
    ("c18.precision", precisionH), ("c18.fmt", fmtH), ("c18.parse", parseH),
    ("c18.aliases", aliasesH), ("c18.aliases_f4", aliasesF4H), ("c18.modes", modesH)]
 
